@@ -301,6 +301,7 @@ func PropC20(c *vs.Case, kind string, env *C20Env, drv C20Driver) error {
 			obj = s.DecoratorObj(name, labels)
 		}
 		if create {
+			obj.SetGeneration(1) // what the API server does (the fake client keeps what it is given)
 			return env.K8s.Create(ctx, obj)
 		}
 		var cur client.Object
@@ -313,6 +314,10 @@ func PropC20(c *vs.Case, kind string, env *C20Env, drv C20Driver) error {
 			return err
 		}
 		obj.SetResourceVersion(cur.GetResourceVersion())
+		obj.SetGeneration(cur.GetGeneration())
+		if len(labels) == 0 {
+			obj.SetGeneration(cur.GetGeneration() + 1) // spec updates bump the generation, metadata-only ones do not
+		}
 		return env.K8s.Update(ctx, obj)
 	}
 	// parents that exist before any controller starts
@@ -377,9 +382,32 @@ func PropC20(c *vs.Case, kind string, env *C20Env, drv C20Driver) error {
 			if forcedStop {
 				op = []int{0, 2}[c.Int(2)]
 			} else {
-				op = c.Weighted(3, 2, 2, 1)
+				op = c.Weighted(3, 2, 2, 1, 1)
 			}
 			switch op {
+			case 4:
+				// deleted and re-created with another spec before metacontroller looks again (kubectl replace --force):
+				// the new object starts at generation 1 like the old one did
+				var old client.Object
+				if kind == "composite" {
+					old = &v1alpha1.CompositeController{ObjectMeta: metav1.ObjectMeta{Name: name}}
+				} else {
+					old = &v1alpha1.DecoratorController{ObjectMeta: metav1.ObjectMeta{Name: name}}
+				}
+				if err := env.K8s.Delete(ctx, old); err != nil {
+					return fmt.Errorf("harness: %v", err)
+				}
+				version++
+				s := genC20Spec(c, version)
+				if err := put(name, s, nil, true); err != nil {
+					return fmt.Errorf("harness: %v", err)
+				}
+				objects[name] = &s
+				what = fmt.Sprintf("delete %s and re-create it as v%d (%s) in one go", name, s.Version, s.Variant)
+				c.Class("replaced-in-one-go")
+				if model[name] != nil {
+					nontrivial = true
+				}
 			case 3:
 				// back to a spec this name has run before (same webhook URL: metrics collectors, ETag caches are re-created)
 				hist := history[name]
